@@ -15,6 +15,7 @@ package server
 // commit (C17); monitors are notified exactly once, after execution and before
 // the commit, and only when no operation result carries an error (C02, C07).
 //@ func (*OvsdbServer).Transact
+//@ sequential
 //@ requires ServerWF(o) && reply != nil
 //@ at call server.(*OvsdbServer).transact requires wheld(o.txnMutex) >= 1 && calls("server.(*OvsdbServer).transact") == 0
 //@ at call server.(*OvsdbServer).processMonitors requires wheld(o.txnMutex) >= 1
@@ -77,4 +78,12 @@ package server
 //@ func (*OvsdbServer).MonitorCondSince
 //@ at call database.Transaction.Transact requires wheld(o.txnMutex) >= 1
 //@ at update o.monitors[client].monitors requires wheld(o.txnMutex) >= 1
+
+// processMonitors (C17/C07): every monitor is notified by this call itself,
+// before it returns (and so before the commit and before the transaction
+// mutex is released): no notification is handed to another goroutine.
+//@ func (*OvsdbServer).processMonitors
+//@ sequential
+//@ func (*OvsdbServer).transact
+//@ sequential
 
